@@ -1,6 +1,6 @@
 (* Proofs about Model/Heal.v: errors have a present cause, service resumes over a new connection, routing converges. *)
 From Coq Require Import List NArith Bool Lia.
-From Sam Require Import Model.Bytes Model.Resp Model.Cluster Model.Heal.
+From Sam Require Import Gen.Tables Model.Bytes Model.Resp Model.Cluster Model.Heal.
 Import ListNotations.
 Open Scope N_scope.
 
@@ -202,3 +202,6 @@ Section P.
     pose proof (hop_inv s o I) as I1. destruct (do_hop s o) as [s1 r]. specialize (IH s1 I1). destruct (run_hops s1 t). exact IH.
   Qed.
 End P.
+
+Lemma trigger_kept : 1 <= slots_refresh_ch_cap.
+Proof. vm_compute. discriminate. Qed.
